@@ -332,7 +332,7 @@ func (c *CPU6502) addIndirectIdxY() (uint64, bool) {
 	c.A = res
 	c.PC++
 
-	return 4 + additionalCycles + moreCycles, false
+	return 5 + additionalCycles + moreCycles, false
 }
 
 func (c *CPU6502) subIndirectIdxY() (uint64, bool) {
@@ -342,7 +342,7 @@ func (c *CPU6502) subIndirectIdxY() (uint64, bool) {
 	c.A = res
 	c.PC++
 
-	return 4 + additionalCycles + moreCycles, false
+	return 5 + additionalCycles + moreCycles, false
 }
 
 func (c *CPU6502) addIdxXIndirect() (uint64, bool) {
@@ -351,7 +351,7 @@ func (c *CPU6502) addIdxXIndirect() (uint64, bool) {
 	c.A = res
 	c.PC++
 
-	return 4 + additionalCycles, false
+	return 6 + additionalCycles, false
 }
 
 func (c *CPU6502) subIdxXIndirect() (uint64, bool) {
@@ -360,7 +360,7 @@ func (c *CPU6502) subIdxXIndirect() (uint64, bool) {
 	c.A = res
 	c.PC++
 
-	return 4 + additionalCycles, false
+	return 6 + additionalCycles, false
 }
 
 // -------- Logical operations --------
@@ -698,14 +698,14 @@ func (c *CPU6502) modAbsoluteX(modifier ModifierOp) (uint64, bool) {
 }
 
 func (c *CPU6502) modAbsoluteX65C02(modifier ModifierOp) (uint64, bool) {
-	operAddr, _ := c.getAddrAbsoluteX()
+	operAddr, additionalCycle := c.getAddrAbsoluteX()
 	oper := c.Mem.Load(operAddr)
 	res := modifier(c, oper)
 	c.Mem.Store(operAddr, res)
 	c.nzFlags(res)
 	c.PC++
 
-	return 6, false
+	return 6 + additionalCycle, false
 }
 
 // -------- INC --------
